@@ -147,7 +147,28 @@ def generate_files(repo):
     consumers = internal_user_queue_consumers(repo)
     L.append("(* internal consumers of the user queues: %s *)" % ("; ".join("%s:%d %s" % c for c in consumers) or "none"))
     L.append("Definition internal_user_queue_consumers : N := %d." % len(consumers))
+    uah = use_after_handover(repo)
+    L.append("(* uses of a message after it was handed to a queue, in bidib_handle_received_message: %s *)" % ("; ".join("line %d (after %s)" % (a, b) for a, b, c in uah) or "none"))
+    L.append("Definition uses_after_handover : N := %d." % len(uah))
     return {"DispatchTab.v": "\n".join(L) + "\n"}
+
+def use_after_handover(repo):
+    """lines of bidib_handle_received_message that still use `message` after it was handed to a queue (the queue's reader owns and
+    frees it from then on); textual, per switch segment: reset at case labels, break, return and `} else`"""
+    f = os.path.join(repo, "src", "transmission", "bidib_transmission_receive.c")
+    txt = open(f, encoding="utf-8", errors="replace").read()
+    txt = re.sub(r"/\*.*?\*/", lambda m: re.sub(r"[^\n]", " ", m.group(0)), txt, flags=re.S); txt = re.sub(r"//[^\n]*", "", txt)
+    out = []; infn = False; handed = None
+    for ln, line in enumerate(txt.split("\n"), 1):
+        if re.match(r"^void bidib_handle_received_message\b", line): infn = True; continue
+        if infn and line.startswith("}"): break
+        if not infn: continue
+        if re.search(r"^\s*(case\s+\w+|default)\s*:", line) or re.search(r"\bbreak\s*;", line) or re.search(r"\}\s*else\b", line) or re.search(r"\breturn\b", line):
+            handed = None; continue
+        if handed and re.search(r"\bmessage\b", line): out.append((ln, handed, line.strip()[:120]))
+        m = re.search(r"\b(bidib_uplink_\w*queue_add)\s*\(\s*message\b", line)
+        if m: handed = "%s at line %d" % (m.group(1), ln)
+    return out
 
 def internal_user_queue_consumers(repo):
     import glob
